@@ -7,4 +7,9 @@ export GOFLAGS=-mod=mod GOPROXY=off GOSUMDB=off GOTOOLCHAIN=local GOWORK=off
 if [ ! -x "$D/bin/shipverif" ] || [ -n "$(find "$D/checker" -name '*.go' -newer "$D/bin/shipverif" 2>/dev/null | head -1)" ]; then
   (cd "$D/checker" && go build -o "$D/bin/shipverif" ./cmd/shipverif) || { echo "checker build failed" >&2; exit 2; }
 fi
-exec "$D/bin/shipverif" check "$1" --tier "${2:-quick}" --repo "${SHIPVERIF_REPO:-/repo}" --verif "$D"
+V="$D"
+if [ -n "${SHIPVERIF_REPO:-}" ] && [ "${SHIPVERIF_REPO}" != "/repo" ]; then
+  # development runs against scratch copies must not touch the evidence of the real tree
+  V="${TMPDIR:-/tmp}/shipverif-scratch"; mkdir -p "$V"; cp "$D/known_findings.json" "$V/" 2>/dev/null
+fi
+exec "$D/bin/shipverif" check "$1" --tier "${2:-quick}" --repo "${SHIPVERIF_REPO:-/repo}" --verif "$V"
